@@ -18,6 +18,12 @@ def main():
         print("refusing: /repo is not clean:\n" + st)
         return 2
     patch = os.path.join(d, "patch.diff")
+    # evidence/<id>.json describes runs on the unchanged tree: keep what is there and put it back afterwards
+    saved = {}
+    for c in checks:
+        ep = os.path.join(VERIF, "evidence", c + ".json")
+        if os.path.exists(ep):
+            saved[ep] = open(ep).read()
     subprocess.check_call(["git", "-C", REPO, "apply", patch])
     results = {}
     try:
@@ -40,6 +46,8 @@ def main():
         subprocess.run(["git", "-C", REPO, "clean", "-fdq"], check=False)
         # bring Gen/*.lean back to the unchanged tree
         subprocess.run([sys.executable, "-c", "import sys; sys.path.insert(0, '%s/tools'); import common; common.regenerate(); common.lake_build(['algobra_model']); common.build_harness(); import check; check.regen_certs_if_db_changed()" % VERIF])
+        for ep, txt in saved.items():
+            open(ep, "w").write(txt)
     json.dump(results, open(os.path.join(d, "result.json"), "w"), indent=1)
     return 0
 
